@@ -458,10 +458,17 @@ func c09SharedBucket(c *Ctx, allow *ssa.Function) {
 	instrsOf(allow, func(in ssa.Instruction) {
 		switch x := in.(type) {
 		case *ssa.FieldAddr:
-			addSrc(x.X)
+			// the bucket whose lock is taken or released (a bucket being initialised before it is
+			// offered to the map is not yet "the bucket Allow works on")
+			if fr, ok := fieldRefOf(x); ok && fr.Key() == "ratelimiter.bucket.mutex" {
+				addSrc(x.X)
+			}
 		case ssa.CallInstruction:
-			for _, a := range x.Common().Args {
-				addSrc(a)
+			// … and the bucket handed to helpers of the limiter (refill, spend)
+			if f := StaticFn(x); f != nil && p.IsHelios(f) {
+				for _, a := range x.Common().Args {
+					addSrc(a)
+				}
 			}
 		}
 	})
